@@ -475,6 +475,49 @@ func evalBinaries(c *Case, work string) (msg string, infra string) {
 				fmt.Fprintf(&sb, "%s: optimize output lost field %s\n", name, n)
 			}
 		}
+		// the layout the compiler gives the fields in the proposed order (go/types gc model,
+		// cross-checked against compiled code for the original order above)
+		if st, ok := T.Underlying().(*types.Struct); ok {
+			byName := map[string]*types.Var{}
+			for i := 0; i < st.NumFields(); i++ {
+				byName[name+"."+st.Field(i).Name()] = st.Field(i)
+			}
+			var vars []*types.Var
+			var claimed []int64
+			complete := true
+			for _, f := range opt {
+				if f.IsPadding {
+					continue
+				}
+				v, ok := byName[f.Name]
+				if !ok {
+					complete = false
+					break
+				}
+				vars = append(vars, types.NewField(0, pkg, v.Name(), v.Type(), false))
+				claimed = append(claimed, f.Start)
+			}
+			if complete && len(vars) == st.NumFields() {
+				reordered := types.NewStruct(vars, nil)
+				realOffs := gcModel.Offsetsof(vars)
+				realSize := gcModel.Sizeof(reordered)
+				// The statement demands a valid layout that is not larger; it does not demand that the
+				// printed offsets are the compiler's for the new order (a trailing zero-size field is fed
+				// to optimize with the one-byte representation). Differences are counted, not judged.
+				differs := realSize != total
+				for i := range vars {
+					if realOffs[i] != claimed[i] {
+						differs = true
+					}
+				}
+				if differs {
+					ev.Count("optimize_claimed_layout_differs_from_compiler_layout_of_that_order", 1)
+				}
+				if realSize > gt.size {
+					fmt.Fprintf(&sb, "%s: the order proposed by optimize has size %d, larger than the original %d\n", name, realSize, gt.size)
+				}
+			}
+		}
 		if m := tile(opt, total); m != "" {
 			fmt.Fprintf(&sb, "%s: optimize output does not tile: %s\n", name, m)
 		}
